@@ -365,6 +365,21 @@ func cachingHandler(router proxy.Router, logger *apexlog.Logger, conf *config.Co
 						cachingFunc(w, r, nil, alwaysInclude, &rf, false)
 						return
 					}
+					if reqres.Response.StatusCode == 304 {
+						// The 304 answers the validator rrrouter sent, not one of the client's, and it may
+						// not be cached: serve the stored entry once without extending its life.
+						err := cr.Writer.SetRevalidateErroredAndClose(false)
+						if err != nil {
+							writeError(*w, err)
+							return
+						}
+						if len(clientRevalidateHeader) > 0 && len(clientRevalidateValue) > 0 {
+							r.Header.Set(clientRevalidateHeader, clientRevalidateValue)
+						}
+						alwaysInclude.Set(caching.HeaderRrrouterCacheStatus, "revalidated")
+						cachingFunc(w, r, nil, alwaysInclude, &rf, true)
+						return
+					}
 				}
 				if dirs.DoNotCache() {
 					alwaysInclude.Set(caching.HeaderRrrouterCacheStatus, "uncacheable")
